@@ -69,7 +69,9 @@ def _case(draw):
     fe = draw(st.sampled_from(frontends.ALL))
     single = draw(st.booleans())
     framing = draw(st.sampled_from(['tcp', 'tcp', 'rtu', 'ascii', 'binary'] + (['tls'] if single and fe in frontends.STREAM else [])))
-    hosted = sorted(draw(st.lists(st.sampled_from([0, 1, 2, 3, 17, 247]), min_size=1, max_size=4, unique=True))) if not single else [0]
+    # hosting unit 0 (or 255) switches the framers' unit filter off, so most multi-unit contexts are drawn without it
+    pool = draw(st.sampled_from([[1, 2, 3, 17, 247], [1, 2, 3, 17, 247], [1, 2, 3, 17, 247], [0, 1, 2, 3, 17, 247]]))
+    hosted = sorted(draw(st.lists(st.sampled_from(pool), min_size=1, max_size=4, unique=True))) if not single else [0]
     ignore = draw(st.booleans())
     bcast = draw(st.booleans()) if frontends.HAS_BROADCAST[fe] and framing != 'tls' else False
     n = draw(st.integers(1, 6))
